@@ -110,6 +110,8 @@ PROPS["C09"] = {
         {"name": "C09ServerResponse", "pkg": CC, "test": "TestVerifC09ServerResponse", "kind": "enum"},
         # the reference client's exported Run on a truncated standard input (binary and JSON), told to stop or not
         {"name": "C09ClientStdin", "pkg": RC, "test": "TestVerifC09ClientStdin", "kind": "enum"},
+        # the reference client's output with several requests in work at once and a slow pipe: intact frames, one per request
+        {"name": "C09ClientStdout", "pkg": RC, "test": "TestVerifC09ClientStdout", "kind": "enum", "timeout": 600},
         # zero-length messages over an io.Pipe, then a quiet peer
         {"name": "C09EmptyMessage", "pkg": INT, "test": "TestVerifC09EmptyMessage", "kind": "enum"},
         # the runner's reader of a client's output: the client answers k requests, takes the next one and stalls
@@ -233,6 +235,8 @@ PROPS["C16"] = {
     "units": [
         # refused stream, no retry: the trace is delivered by the retry timer; a later close must not complete it again
         {"name": "C16RetryTimer", "pkg": TR, "test": "TestVerifC16RetryTimer", "kind": "enum", "timeout": 300},
+        # tracing middleware around a handler whose Write fails and which then sets trailers / writes again: completed once, not touched afterwards
+        {"name": "C16ServerWriteFails", "pkg": TR, "test": "TestVerifC16ServerWriteFails", "kind": "enum"},
         # the C15 conversations, judged only on "completed exactly once"
         {"name": "C16H2Once", "pkg": TR, "test": "TestVerifC16H2Once", "kind": "rapid",
          "checks": {"quick": 1500, "thorough": 20000}, "shards": {"quick": 3, "thorough": 8}},
@@ -345,6 +349,8 @@ PROPS["C12"] = {
         {"name": "C12TLS", "pkg": RS, "test": "TestVerifC12TLS", "kind": "enum", "timeout": 600},
         {"name": "C12BlackBox", "pkg": RS, "test": "TestVerifC12BlackBox", "kind": "rapid",
          "checks": {"quick": 1500, "thorough": 20000}, "shards": {"quick": 2, "thorough": 8}},
+        # the protocol aspect by content type, for GET and POST alike
+        {"name": "C12MethodProtocol", "pkg": RS, "test": "TestVerifC12MethodProtocol", "kind": "enum"},
         # stop signal while a request is still being uploaded: the late (trailer) feedback still reaches stderr
         {"name": "C12Shutdown", "pkg": RS, "test": "TestVerifC12Shutdown", "kind": "enum", "timeout": 600},
     ],
@@ -484,6 +490,8 @@ PROPS["C05"] = {
     "units": [
         # client mode over the embedded corpus: hand-over between the two in-process reference server kinds
         {"name": "C05ClientKinds", "pkg": CC, "test": "TestVerifC05ClientKinds", "kind": "enum", "shards": {"quick": 4, "thorough": 8}, "timeout": 900},
+        # a server command that cannot be started, more instances than --max-servers: the run ends, nothing passes
+        {"name": "C05StartFailures", "pkg": CC, "test": "TestVerifC05StartFailures", "kind": "enum", "timeout": 900},
         # the bound as the built command line sets it: real CLI, --max-servers below --parallel, servers that record when they are alive
         {"name": "C05CLI", "pkg": "cmd/connectconformance", "test": "TestVerifC05CLI", "kind": "enum", "timeout": 1200},
         {"name": "C05Dispatch", "pkg": CC, "test": "TestVerifC05Dispatch", "kind": "rapid", "race": {"quick": False, "thorough": True},
@@ -624,4 +632,22 @@ _ADDED11 = {
     "C20": " Flips: every single-bit flip / cut / trailing bytes of one stream per encoding, then valid streams on the same instance.",
 }
 for _pid, _txt in _ADDED11.items():
+    PROPS[_pid]["rule"] = PROPS[_pid]["rule"] + _txt
+_ADDED12 = {
+    "C02": " Known also runs the recorded shape with surplus requests (3/1, 4/2): only Connect permutations may fail, with the recorded error.",
+    "C03": " Deviation: the values of a repeated field in another order.",
+    "C05": " StartFailures: a server command that cannot be started; scripted servers that leave their host empty.",
+    "C07": " NameCollision: same-name suites of which one applies: the same answer in 120 repetitions.",
+    "C08": " Pattern files that are named pipes.",
+    "C09": " ClientStdout: the reference client's output under -p 4 with a slow pipe: intact frames, one per request.",
+    "C11": " InProcess: a failing in-process reference server's error line reaches the error printer.",
+    "C12": " MethodProtocol: protocol feedback by content type for GET and POST.",
+    "C13": " lf-first; traces with Err set are still examined.",
+    "C14": " Bodies with the other protocol family's encoding header as a decoy.",
+    "C16": " ServerWriteFails: middleware + handler whose Write fails, then trailers: completed once, trace untouched afterwards.",
+    "C17": " E2E: broken request tails after the message that prescribes the raw response.",
+    "C19": " Expand: suites relevant to more than the proto codec with size directives are rejected.",
+    "C20": " Reset-only histories; compressors never close their sink.",
+}
+for _pid, _txt in _ADDED12.items():
     PROPS[_pid]["rule"] = PROPS[_pid]["rule"] + _txt
